@@ -8,7 +8,7 @@ Definition is_rem (it : item) : bool :=
 (* items the disk thread may hold: it only dispatches *)
 Definition disk_item (it : item) : bool :=
   match it with
-  | ICmd Dispatch | IPcLock | IBatch _ | IPerfPop | IPublish _ | IPostWork | IPostIntrUnlock => true
+  | ICmd Dispatch | ICmd Loop | IPcLock | IBatch _ | IPerfPop | IPublish _ | IPostWork | IPostIntrUnlock => true
   | _ => false
   end.
 Definition norem (td : list item) : bool := forallb (fun it => negb (is_rem it)) td.
@@ -84,7 +84,7 @@ Lemma norm1_disk s td : forallb disk_item td = true -> forallb disk_item (norm1 
 Proof.
   destruct td as [|it r]; simpl; auto. intros H. apply andb_true_iff in H. destruct H as (Hh & Hr).
   destruct it; simpl in *; try discriminate; rewrite ?Hr; auto.
-  - destruct c; simpl in *; try discriminate. rewrite Hr; auto.
+  - destruct c; simpl in *; try discriminate; rewrite Hr; auto.
   - destruct n; simpl; rewrite Hr; auto.
 Qed.
 Lemma norm_disk fuel s : forall td, forallb disk_item td = true -> forallb disk_item (norm fuel 1 s td) = true.
@@ -179,7 +179,7 @@ Proof.
   split; auto. split; [apply settle_inv; auto | split; [apply settle_clean; auto | auto]].
 Qed.
 
-Definition disk_only (p1 : list cmd) : Prop := forallb (fun c => match c with Dispatch => true | _ => false end) p1 = true.
+Definition disk_only (p1 : list cmd) : Prop := forallb (fun c => match c with Dispatch | Loop => true | _ => false end) p1 = true.
 
 Lemma init_inv2 p0 p1 : distinct_pushes p0 p1 -> disk_only p1 -> inv2 (init p0 p1) /\ headed (init p0 p1).
 Proof.
@@ -188,7 +188,7 @@ Proof.
   assert (inv s0) as I0. { split; simpl; auto. intros c. rewrite !hands_cmds. simpl. split; auto. specialize (D c). lia. }
   assert (clean s0) as C0.
   { split; simpl.
-    - clear -K. induction p1 as [|c p IH]; simpl in *; auto. apply andb_true_iff in K. destruct K as (K1 & K2). destruct c; try discriminate. simpl. auto.
+    - clear -K. induction p1 as [|c p IH]; simpl in *; auto. apply andb_true_iff in K. destruct K as (K1 & K2). destruct c; try discriminate; simpl; auto.
     - clear. destruct p0; simpl; auto. induction p0; simpl; auto. }
   assert (sc s0) as S0. { unfold sc; simpl. destruct p0; simpl; auto. }
   destruct (settle_sc _ C0 S0). split; auto. split; [apply settle_inv; auto | split; [apply settle_clean; auto | auto]].
@@ -235,4 +235,27 @@ Proof.
     + apply (Ret (x :: l')). reflexivity.
   - injection Vr as <- <-. simpl in Ret. apply (Ret ((c, t0) :: l0)). reflexivity.
   - injection Vr as <- <-. simpl in Ret. apply (Ret ((c, t0) :: l0)). reflexivity.
+Qed.
+
+(* MAPPING REFERENCES. In the implementation every pending piece holds one blocking ChunkList reference
+   (ChunkList::get(get_blocking) before push_back) which the owner releases inside the notification it receives
+   (slot_done -> ChunkList::release); the model therefore carries the references as "one per node": *)
+Definition refs (s : st) : list chunk := chunks (hq s).
+(* ... so a reference is released exactly when its piece is notified, i.e. (one_notification) at most once, and
+   when remove(t) returns no reference of a piece of t is left *)
+Lemma remove_returns_released p0 p1 s s2 t l : distinct_pushes p0 p1 -> disk_only p1 -> reachable (init p0 p1) s ->
+  rem_view (td0 s) = Some (t, l) -> step s 0 = Some s2 ->
+  (forall l', rem_view (td0 s2) <> Some (t, l')) ->
+  forall c x, In (c, x) (hq s2) -> In c (refs s2) /\ x <> t.
+Proof.
+  intros D K R V St Ret c x Hin. split.
+  - unfold refs, chunks. apply in_map_iff. exists (c, x). auto.
+  - apply (remove_returns_safe _ _ _ _ _ _ D K R V St Ret (c, x) Hin).
+Qed.
+Lemma refs_released_with_notification p0 p1 s c : distinct_pushes p0 p1 -> reachable (init p0 p1) s ->
+  1 <= cnt c (nchunks (notes s)) -> cnt c (refs s) = 0.
+Proof.
+  intros D R N. destruct (one_notification _ _ _ c D R) as (_ & H). destruct (H N) as (Hn & _).
+  unfold refs. destruct (cnt c (chunks (hq s))) eqn:E; auto.
+  assert (has_node c (hq s) = true) by (apply has_node_cnt; lia). congruence.
 Qed.
